@@ -179,6 +179,19 @@ impl HWorld {
                 self.sch_of.push(self.sch_of[c - 1]);
                 res_ok(Val::int(self.ctxs.len() as i64))
             }
+            "roundtrip" => {
+                use serde::de::DeserializeSeed;
+                let c = op["c"].as_u64().unwrap() as usize;
+                let sid = self.sch_of[c - 1];
+                let text = serde_json::to_string(self.ctxs[c - 1].as_ref().unwrap()).unwrap_or_default();
+                let mut fresh = ExecutionContext::<()>::new(&self.schemes[sid - 1]);
+                let leaked: &'static str = Box::leak(text.into_boxed_str());
+                let mut de = serde_json::Deserializer::from_str(leaked);
+                let ok = (&mut fresh).deserialize(&mut de).is_ok();
+                self.ctxs.push(Some(fresh));
+                self.sch_of.push(sid);
+                if ok { res_ok(Val::int(self.ctxs.len() as i64)) } else { res_err("roundtrip-failed") }
+            }
             "take" => {
                 let c = op["c"].as_u64().unwrap() as usize;
                 let old = self.ctxs[c - 1].take().unwrap();
